@@ -12,6 +12,13 @@
 //!         parses the subtable bytes and applies it at idx through the real Apply impl;
 //!         infos = gid:glyph_props:lig_props,...; the <model...> tokens are for the Lean side only
 //!         -> ok <applied 0|1> <idx'> <has 0|1> <pos...>
+//!   gp plan <fontid> <dir>                                 GPOS lookups of the plan (DFLT script, no user features)
+//!         -> ok <idx:mask:auto_zwnj:auto_zwj:per_syllable,...|->
+//!   gp pos <fontid> <dir> <finish 0|1> <infos> FONT <ints…> MAPS <ints…> | <pos...>
+//!         position_start + every GPOS lookup of the plan through the real apply_layout_table driver (one apply
+//!         context: the last-base cache lives as long as in shape()) + (finish) position_finish_offsets, on an
+//!         injected buffer; infos = gid:mask:glyph_props:lig_props:unicode_props,...; FONT/MAPS are for the Lean side
+//!         -> ok <has 0|1> <pos...>
 //!   kern mk <dir> <len> <mask> <cross 0|1> <pairs l:r:v,...|-> <infos gid:mask:mark:di,...> | <pos...>
 //!         the private machine_kern -> ok <has> <pos...>
 //!   kern plan <kernhex> <dir> <kern 0|1|->                -> ok <kern_mask> <requested> <apply_kern>
@@ -24,6 +31,7 @@ use super::util::hex_bytes;
 use rustybuzz::ttf_parser;
 use rustybuzz::verif::gpos as g;
 use rustybuzz::verif::kerning as k;
+use rustybuzz::verif::layout as vl;
 use rustybuzz::{Direction, Face, Feature, ShapePlan};
 
 pub const CMDS: &[&str] = &["gp", "kern"];
@@ -134,8 +142,54 @@ fn kinfos(s: &str) -> Option<Vec<k::I>> {
         .collect()
 }
 
-pub fn handle(toks: &[&str], _st: &mut crate::State) -> Option<String> {
+fn font_plan(st: &crate::State, id: &str, d: Direction) -> Option<(Face<'static>, ShapePlan)> {
+    let data: &'static [u8] = st.fonts.get(id)?;
+    let face = Face::from_slice(data, 0)?;
+    let plan = ShapePlan::new(&face, d, None, None, &[]);
+    Some((face, plan))
+}
+
+pub fn handle(toks: &[&str], st: &mut crate::State) -> Option<String> {
     match (toks[0], *toks.get(1)?) {
+        ("gp", "plan") => {
+            let d = dir(toks.get(3)?)?;
+            let (_face, plan) = font_plan(st, toks.get(2)?, d)?;
+            let v: Vec<String> = vl::plan_lookups(&plan, true)
+                .iter()
+                .map(|l| format!("{}:{}:{}:{}:{}", l.1, l.2, l.3 as u8, l.4 as u8, l.6 as u8))
+                .collect();
+            Some(format!("ok {}", if v.is_empty() { "-".to_string() } else { v.join(",") }))
+        }
+        ("gp", "pos") => {
+            let d = dir(toks.get(3)?)?;
+            let (face, plan) = font_plan(st, toks.get(2)?, d)?;
+            let finish = *toks.get(4)? == "1";
+            let infos: Option<Vec<(u32, u32, u16, u8, u16)>> = toks
+                .get(5)?
+                .split(',')
+                .map(|t| {
+                    let v: Vec<&str> = t.split(':').collect();
+                    if v.len() != 5 {
+                        return None;
+                    }
+                    Some((
+                        v[0].parse().ok()?,
+                        v[1].parse().ok()?,
+                        v[2].parse().ok()?,
+                        v[3].parse().ok()?,
+                        v[4].parse().ok()?,
+                    ))
+                })
+                .collect();
+            let infos = infos?;
+            let (_, ptoks) = split_bar(&toks[6..])?;
+            let p = pos(ptoks)?;
+            if p.len() != infos.len() {
+                return None;
+            }
+            let (ps, has) = g::position_buffer(&face, &plan, d, &infos, &p, finish);
+            Some(format!("ok {} {}", has as u8, fmt_pos(&ps)))
+        }
         ("gp", "consts") => Some(format!(
             "ok {} {}",
             g::consts().iter().map(|x| x.to_string()).collect::<Vec<_>>().join(" "),
